@@ -59,7 +59,7 @@ def moltype(draw, name, resdefs, max_res=8, shapes=("linear", "linear", "branche
 
 @st.composite
 def system(draw, max_moltypes=3, max_res=8, max_total_mol=6, allow_vs=True, single_atom_ok=True,
-           min_res=1, shapes=("linear", "linear", "branched", "ring")):
+           min_res=1, shapes=("linear", "linear", "branched", "ring"), variants=False):
     ntypes = draw(st.integers(2, 4))
     comb = draw(st.sampled_from([1, 2]))
     atomtypes = [{"name": TYPE_NAMES[i], "mass": draw(st.sampled_from([36.0, 45.0, 72.0])),
@@ -68,6 +68,11 @@ def system(draw, max_moltypes=3, max_res=8, max_total_mol=6, allow_vs=True, sing
     types = [a["name"] for a in atomtypes]
     nresdef = draw(st.integers(1, 4))
     resdefs = [draw(residue(RESNAMES[i], types, allow_vs=allow_vs)) for i in range(nresdef)]
+    if variants and draw(st.integers(0, 2)) == 0:
+        # a second residue with the name of an existing one but other atoms (e.g. an end group that keeps the
+        # name of the repeat unit): same name, another template and size
+        base = draw(st.sampled_from(resdefs))
+        resdefs.append(draw(residue(base["resname"], types, allow_vs=False, prefix="x")))
     nmt = draw(st.integers(1, max_moltypes))
     moltypes = [draw(moltype(f"M{chr(65 + i)}", resdefs, max_res=max_res, min_res=min_res, shapes=shapes))
                 for i in range(nmt)]
